@@ -67,100 +67,6 @@ fn fixed_cases() -> Vec<Vec<Entry>> {
     out
 }
 
-// ---------- text around the postings (C02: the diagnostic must still point at the posting) ----------
-
-const PAYEES: [&str; 12] = [
-    "スーパーマーケットで食料品と日用品を購入",
-    "Café Zürich – déjeuner d'équipe",
-    "Оплата аренды за март",
-    "😀 lunch 🍣🍣",
-    "ｆｕｌｌｗｉｄｔｈ　ｓｈｏｐ",
-    "naïve façade coöp",
-    "e\u{301}cole de\u{301}ja\u{300}",
-    "期首残高",
-    "plain ascii payee",
-    "Ångström Ærø Łódź",
-    "한국어 가게",
-    "مطعم",
-];
-const NOTES: [&str; 10] = [
-    "領収書あり",
-    "reçu n° 42 — payé",
-    "чек прилагается",
-    ":タグ:経費:",
-    "メモ: 割り勘",
-    "ascii note",
-    "🧾🧾🧾",
-    "ｗｉｄｅ",
-    "ÄÖÜäöüß",
-    "備考 備考 備考 備考 備考 備考",
-];
-const CODES: [&str; 4] = ["#12", "領収-7", "n°3", "Ж-9"];
-
-/// Rename a random subset of the accounts to their non-ASCII twins (the same twin everywhere
-/// in the ledger) and put text the book-keeping never reads around the postings.
-fn decorate(r: &mut Rng, entries: &mut [Entry]) -> Deco {
-    let mut d = Deco::default();
-    let style = r.below(4); // 0: plain rendering, 1: names only, 2: text only, 3: both
-    if style == 0 {
-        return d;
-    }
-    if style == 1 || style == 3 {
-        let twin: Vec<bool> = (0..ACCOUNTS.len()).map(|_| r.chance(1, 2)).collect();
-        for e in entries.iter_mut() {
-            if let Entry::Txn(t) = e {
-                for p in t.posts.iter_mut() {
-                    if p.account < ACCOUNTS.len() && twin[p.account] {
-                        p.account += ACCOUNTS.len();
-                    }
-                }
-            }
-        }
-    }
-    if style >= 2 {
-        for (k, e) in entries.iter().enumerate() {
-            match e {
-                Entry::Txn(t) => {
-                    let mut td = TxnDeco::default();
-                    if r.chance(2, 3) {
-                        td.payee = Some(r.pick(&PAYEES).to_string());
-                    }
-                    if r.chance(1, 5) {
-                        td.code = Some(r.pick(&CODES).to_string());
-                    }
-                    for _ in 0..r.below(3) {
-                        td.notes.push(r.pick(&NOTES).to_string());
-                    }
-                    for i in 0..t.posts.len() {
-                        let mut pd = PostDeco::default();
-                        if r.chance(1, 4) {
-                            pd.tail = Some(r.pick(&NOTES).to_string());
-                        }
-                        if r.chance(1, 5) {
-                            for _ in 0..1 + r.below(2) {
-                                pd.after.push(r.pick(&NOTES).to_string());
-                            }
-                        }
-                        if pd != PostDeco::default() {
-                            td.posts.insert(i, pd);
-                        }
-                    }
-                    if td != TxnDeco::default() {
-                        d.txns.insert(k, td);
-                    }
-                }
-                Entry::Comment => {
-                    if r.chance(2, 3) {
-                        d.comments.insert(k, format!("{} {}", r.pick(&NOTES), r.pick(&PAYEES)));
-                    }
-                }
-                Entry::Format(..) => {}
-            }
-        }
-    }
-    d
-}
-
 /// bytes outside ASCII in the text of entry `entry` in front of posting `posting`
 fn non_ascii_before(r: &Rendered, entry: usize, posting: usize) -> usize {
     let start = r.entry_line.get(entry).map(|l| r.text.split('\n').take(l - 1).map(|x| x.len() + 1).sum::<usize>()).unwrap_or(0);
@@ -240,30 +146,6 @@ fn emit_c02(sh: &mut Shards, st: &mut Stats, entries: &[Entry], deco: &Deco, non
     sh.push(term, vec![rep]);
 }
 
-/// corpus / replay files: the entry tree under "entries", the text around it under "deco"
-fn corpus_decos(dir: &std::path::Path, extra: &[String]) -> Vec<Deco> {
-    let mut files: Vec<std::path::PathBuf> = Vec::new();
-    if let Some(i) = extra.iter().position(|a| a == "--replay") {
-        if let Some(p) = extra.get(i + 1) {
-            files.push(std::path::PathBuf::from(p));
-        }
-    } else if let Ok(rd) = std::fs::read_dir(dir) {
-        files = rd.filter_map(|e| e.ok()).map(|e| e.path()).collect();
-        files.sort();
-    }
-    let mut out = Vec::new();
-    for p in files {
-        if let Ok(text) = std::fs::read_to_string(&p) {
-            if let Ok(v) = serde_json::from_str::<serde_json::Value>(&text) {
-                if v.get("entries").and_then(|e| serde_json::from_value::<Vec<Entry>>(e.clone()).ok()).is_some() {
-                    out.push(v.get("deco").and_then(|d| serde_json::from_value::<Deco>(d.clone()).ok()).unwrap_or_default());
-                }
-            }
-        }
-    }
-    out
-}
-
 pub fn run(o: &Opts, prop: &str) {
     let mut st = Stats::new();
     let classify = if prop == "C02" { "Classify_C02" } else { "Classify_C03" };
@@ -272,12 +154,12 @@ pub fn run(o: &Opts, prop: &str) {
     st.rule = if is02 {
         "generated ledgers with raised assertion density (several per account per transaction, after assignments and omitted postings, multi-commodity accounts, `= 0` vs `= 0 X`, negative balances; 1 in 8 assertions false) + fixed boundary ledgers; three ledgers in four are written with text outside ASCII that the book-keeping never reads (payees, codes, comment lines under the header and under postings, trailing comments, comment entries: two-, three- and four-byte characters, double-width and combining ones) and/or with account names outside ASCII; for every failed assertion the rendered error (Display of ReportError) is read back - excerpt, `--> line:col`, the two labelled markers, the balances of title and label - and related to postings of the ledger text; non-trivial = at least one assertion was evaluated (the ledger carries one and processing reached it); distinct by ledger text".to_string()
     } else {
-        "generated ledgers biased to an omitted-amount or assignment posting at every position among 1-5 others with costs/lots/several commodities (one cost or lot price in four written with a minus sign: `@@ -1,000 USD`, `{{-5 EUR}}`, `@ -2 USD`), after a history giving the assigned account 0/1/2 commodities + fixed boundary ledgers; non-trivial = the ledger has an omitted or assigned posting and is not rejected before reaching it; distinct by ledger text".to_string()
+        "generated ledgers biased to an omitted-amount or assignment posting at every position among 1-5 others with costs/lots/several commodities (one cost or lot price in four written with a minus sign: `@@ -1,000 USD`, `{{-5 EUR}}`, `@ -2 USD`), after a history giving the assigned account 0/1/2 commodities + fixed boundary ledgers; three ledgers in four written with text and account names outside ASCII as in C02; every rejected ledger's error is rendered as the user sees it and read back - title, location, excerpt lines, every labelled marker - and must name the entry and posting(s) the model says fail (diag:* counts); non-trivial = the ledger has an omitted or assigned posting and is not rejected before reaching it; distinct by ledger text".to_string()
     };
     st.rule = format!("{}; {}", st.rule, TEXT_SHAPES_RULE);
     st.assumptions.push("literal mantissas below 10^7 with scale <= 3: every intermediate Decimal is exact".into());
     st.assumptions.push("no total price on an expression-produced zero (sign bit of zero is not modelled)".into());
-    if is02 {
+    {
         st.assumptions.push(format!("errors are rendered by annotate-snippets' plain renderer on a terminal of {} columns, so that no excerpt line is cut (a line beyond {} columns would be counted as diag:excerpt_cut_not_read); marker columns are related to bytes with unicode-width, the width table annotate-snippets itself uses", diag::TERM_WIDTH, diag::MAX_LINE_COLS));
     }
     let nontrivial = move |s: &Shape, o: &Obs| -> bool {
@@ -290,7 +172,7 @@ pub fn run(o: &Opts, prop: &str) {
         if is02 {
             emit_c02(&mut sh, &mut st, es, decos.get(k).unwrap_or(&Deco::default()), &nontrivial, "corpus");
         } else {
-            emit_ledger_case(&mut sh, &mut st, prop, es, &nontrivial, "corpus");
+            emit_ledger_case(&mut sh, &mut st, prop, es, decos.get(k).unwrap_or(&Deco::default()), &nontrivial, "corpus");
         }
     }
     if !replay {
@@ -300,7 +182,7 @@ pub fn run(o: &Opts, prop: &str) {
             if is02 {
                 emit_c02(&mut sh, &mut st, &es, &Deco::default(), &nontrivial, "fixed");
             } else {
-                emit_ledger_case(&mut sh, &mut st, prop, &es, &nontrivial, "fixed");
+                emit_ledger_case(&mut sh, &mut st, prop, &es, &Deco::default(), &nontrivial, "fixed");
             }
         }
         // the text the book-keeping never reads: its own stream, so that the ledgers stay those of the seed
@@ -327,11 +209,11 @@ pub fn run(o: &Opts, prop: &str) {
                 b.neg_exch_pct = 25;
             }
             let mut es = gen_ledger(&mut r, &b);
+            let deco = decorate(&mut rd, &mut es);
             if is02 {
-                let deco = decorate(&mut rd, &mut es);
                 emit_c02(&mut sh, &mut st, &es, &deco, &nontrivial, "random");
             } else {
-                emit_ledger_case(&mut sh, &mut st, prop, &es, &nontrivial, "random");
+                emit_ledger_case(&mut sh, &mut st, prop, &es, &deco, &nontrivial, "random");
             }
         }
     }
